@@ -183,7 +183,7 @@ func ftDiff(w *world.World, want, got ftStore) string {
 		g, ok := got[k]
 		if !ok {
 			out = append(out, "missing "+ftLabel(w, f))
-		} else if g != f {
+		} else if !ftSame(g, f) {
 			out = append(out, fmt.Sprintf("differs %s: want %+v got %+v", ftLabel(w, f), f, g))
 		}
 	}
@@ -194,6 +194,30 @@ func ftDiff(w *world.World, want, got ftStore) string {
 	}
 	sort.Strings(out)
 	return strings.Join(out, "; ")
+}
+
+// ftSame compares two entries; access lists are compared as maps (their JSON text may be formatted differently).
+func ftSame(a, b fttypes.Files) bool {
+	if a.Address != b.Address || a.Contents != b.Contents || a.Owner != b.Owner || a.TrackingNumber != b.TrackingNumber {
+		return false
+	}
+	same := func(x, y string) bool {
+		mx, okx := parseAccess(x)
+		my, oky := parseAccess(y)
+		if !okx || !oky {
+			return x == y
+		}
+		if len(mx) != len(my) {
+			return false
+		}
+		for k, v := range mx {
+			if w, ok := my[k]; !ok || w != v {
+				return false
+			}
+		}
+		return true
+	}
+	return same(a.ViewingAccess, b.ViewingAccess) && same(a.EditAccess, b.EditAccess)
 }
 
 func ftLabel(w *world.World, f fttypes.Files) string {
